@@ -23,6 +23,13 @@
 //! x safe-state entries {none, the bound address, an entry covering it only partly}
 //! (`Runtime::set_io_safe_state`) x the division by zero placed after {none, some, all} output
 //! assignments of the cycle; %Q pairs under SafeHalt with a safe entry for the first binding only.
+//! Fault kinds beyond the division by zero: a bound %Q/%M variable holding a value that cannot be
+//! encoded when the outputs are published (wrong tag / out of range, stored through the storage
+//! API into the source variable of the late assignment — the same state the known un-narrowed
+//! arithmetic of C02/C03 produces), for the first or the second of two bindings; driver 0 failing
+//! in read_inputs / in write_outputs. Cleared faults: after the faulting cycle the fault is cleared
+//! by clear_fault(), restart(Warm) or restart(Cold) and two more cycles run under the FULL oracle
+//! (calls, latch, publish, locality); findings there are `after-fault/<kind>:<clearing>:<clause>`.
 //! Fault clause: in every image handed to a driver in/after the faulted cycle, and in
 //! `io().outputs()` afterwards, the bits of a bound span that no safe-state entry covers must not
 //! carry a value the program assigned in the faulted cycle (whether the safe-state delivery itself
@@ -79,7 +86,7 @@ use trust_runtime::io::{IoAddress, IoDriver, IoSafeState};
 use trust_runtime::watchdog::FaultPolicy;
 use trust_runtime::memory::InstanceId;
 use trust_runtime::value::{Duration, Value};
-use trust_runtime::Runtime;
+use trust_runtime::{RestartMode, Runtime};
 
 const IMG: usize = 18;
 const PREFILL: u8 = 0xA5;
@@ -564,6 +571,25 @@ struct Case {
     /// where in the faulting cycle the division by zero sits: 0 = before any output assignment,
     /// 1 = after the early and mid assignments (some), 2 = after the late ones (all)
     fault_pos: u8,
+    /// what makes cycle `fault_cycle` fail: 0 = division by zero in the program, 1 = the first /
+    /// 2 = the second output-or-marker-bound variable holds a value that cannot be encoded into its
+    /// cell when the outputs are published, 3 = driver 0 fails in read_inputs, 4 = in write_outputs
+    fault_kind: u8,
+    /// how the fault is cleared before two more fully checked cycles: 0 = not at all,
+    /// 1 = clear_fault(), 2 = restart(Warm), 3 = restart(Cold)
+    clear: u8,
+}
+
+const KIND_NAMES: [&str; 5] = ["program", "output-phase", "output-phase", "driver-read", "driver-write"];
+const CLEAR_NAMES: [&str; 4] = ["none", "clear-fault", "warm-restart", "cold-restart"];
+
+/// a value of the wrong tag / out of range for `ty` that `coerce_to_io` cannot encode; None for
+/// types whose encode step accepts anything numeric (64-bit integers, REAL, LREAL)
+fn unencodable(ty: &Ty) -> Option<Value> {
+    match (ty.kind, ty.size) {
+        (Kind::Real, _) | (Kind::Signed, Size::L) | (Kind::Unsigned, Size::L) => None,
+        _ => Some(Value::LInt(0x7FFF_FFFF_FFFF)),
+    }
 }
 
 const POLICY_NAMES: [&str; 3] = ["halt", "safe_halt", "restart"];
@@ -583,7 +609,16 @@ fn safe_bits(a: &Addr) -> u64 {
 
 impl Case {
     fn plain(family: &'static str, shape: Shape, drivers: usize, fault_cycle: usize, binds: Vec<Bind>) -> Case {
-        Case { family, shape, drivers, fault_cycle, binds, partial: None, sched: 0, ext: false, policy: 0, safe: Vec::new(), fault_pos: 1 }
+        Case { family, shape, drivers, fault_cycle, binds, partial: None, sched: 0, ext: false, policy: 0, safe: Vec::new(), fault_pos: 1, fault_kind: 0, clear: 0 }
+    }
+    /// index of the binding that is given the unencodable value (fault kinds 1 and 2)
+    fn bad_binding(&self) -> Option<usize> {
+        let nth = match self.fault_kind {
+            1 => 0,
+            2 => 1,
+            _ => return None,
+        };
+        self.binds.iter().enumerate().filter(|(_, b)| b.addr.area.writes()).map(|(k, _)| k).nth(nth)
     }
     fn eff_cycle(&self, k: usize, c: usize) -> usize {
         let mut e = c;
@@ -614,6 +649,10 @@ impl Case {
             j["policy"] = json!(POLICY_NAMES[self.policy as usize % 3]);
             j["safe"] = json!(self.safe.iter().map(|(a, v)| json!({"addr": a.text(), "bits": v})).collect::<Vec<_>>());
             j["fault_pos"] = json!(self.fault_pos);
+        }
+        if self.fault_kind != 0 || self.clear != 0 {
+            j["fault_kind"] = json!(self.fault_kind);
+            j["clear"] = json!(CLEAR_NAMES[self.clear as usize % 4]);
         }
         j
     }
@@ -651,6 +690,8 @@ impl Case {
                 .map(|a| a.iter().filter_map(|e| Some((Addr::parse(e["addr"].as_str()?)?, e["bits"].as_u64()?))).collect())
                 .unwrap_or_default(),
             fault_pos: j["fault_pos"].as_u64().unwrap_or(1) as u8,
+            fault_kind: j["fault_kind"].as_u64().unwrap_or(0) as u8,
+            clear: CLEAR_NAMES.iter().position(|n| Some(*n) == j["clear"].as_str()).unwrap_or(0) as u8,
         })
     }
 }
@@ -852,12 +893,17 @@ fn source_of(case: &Case) -> String {
 enum Ev {
     Read { drv: usize, n: u32 },
     Write { drv: usize, image: Vec<u8> },
+    /// the driver answered with an error (injected by the harness), nothing supplied / accepted
+    Failed { drv: usize },
 }
 
 #[derive(Default)]
 struct Shared {
     events: Vec<Ev>,
     calls: Vec<u32>,
+    /// driver 0 fails its next read_inputs / write_outputs call
+    fail_read: bool,
+    fail_write: bool,
 }
 
 struct LogDriver {
@@ -879,6 +925,11 @@ fn region(id: usize, ndrv: usize, len: usize) -> std::ops::Range<usize> {
 impl IoDriver for LogDriver {
     fn read_inputs(&mut self, inputs: &mut [u8]) -> Result<(), RuntimeError> {
         let mut sh = self.sh.lock().unwrap();
+        if self.id == 0 && sh.fail_read {
+            sh.fail_read = false;
+            sh.events.push(Ev::Failed { drv: self.id });
+            return Err(RuntimeError::IoDriver("injected read failure".into()));
+        }
         let n = sh.calls[self.id];
         sh.calls[self.id] += 1;
         for i in region(self.id, self.ndrv, inputs.len()) {
@@ -889,6 +940,11 @@ impl IoDriver for LogDriver {
     }
     fn write_outputs(&mut self, outputs: &[u8]) -> Result<(), RuntimeError> {
         let mut sh = self.sh.lock().unwrap();
+        if self.id == 0 && sh.fail_write {
+            sh.fail_write = false;
+            sh.events.push(Ev::Failed { drv: self.id });
+            return Err(RuntimeError::IoDriver("injected write failure".into()));
+        }
         sh.events.push(Ev::Write { drv: self.id, image: outputs.to_vec() });
         Ok(())
     }
@@ -1189,6 +1245,7 @@ struct Stats {
     idle_outputs_changed: u64,
     sched_conflicts: u64,
     safe_deliveries: u64,
+    continuation_cycles: u64,
 }
 
 enum Home {
@@ -1259,7 +1316,17 @@ fn run_case(case: &Case) -> Result<CaseRun, String> {
         j["cycle"] = json!(cycle);
         j
     };
+    // set once a fault has been cleared: "<fault kind>:<way of clearing>"
+    let after_clear: std::cell::RefCell<Option<String>> = std::cell::RefCell::new(None);
     let push = |viols: &mut Vec<Violation>, tail: String, what: String, cycle: usize| {
+        // in the cycles after a cleared fault the finding is the clause that no longer holds
+        let (tail, what) = match after_clear.borrow().as_ref() {
+            Some(label) => (
+                format!("after-fault/{label}:{}", tail.split('/').next().unwrap_or("")),
+                format!("after the fault was cleared ({label}) the cycle clauses must hold again, but [{tail}] {what}"),
+            ),
+            None => (tail, what),
+        };
         let sig = format!("C07/{tail}");
         if !viols.iter().any(|v| v.signature == sig) {
             viols.push(Violation {
@@ -1282,7 +1349,7 @@ fn run_case(case: &Case) -> Result<CaseRun, String> {
         }
     };
     let rt = h.runtime_mut();
-    let home = find_home(rt, case.shape)?;
+    let mut home = find_home(rt, case.shape)?;
     rt.io_mut().resize(IMG, IMG, IMG);
     for b in rt.io_mut().inputs_mut() {
         *b = PREFILL;
@@ -1307,7 +1374,7 @@ fn run_case(case: &Case) -> Result<CaseRun, String> {
         }
         rt.set_io_safe_state(st);
     }
-    let sh = Arc::new(Mutex::new(Shared { events: Vec::new(), calls: vec![0; case.drivers] }));
+    let sh = Arc::new(Mutex::new(Shared { events: Vec::new(), calls: vec![0; case.drivers], fail_read: false, fail_write: false }));
     for id in 0..case.drivers {
         rt.add_io_driver(format!("d{id}"), Box::new(LogDriver { id, ndrv: case.drivers, sh: sh.clone() }));
     }
@@ -1327,20 +1394,31 @@ fn run_case(case: &Case) -> Result<CaseRun, String> {
     order_mask.insert(Area::Q, u32::MAX);
     order_mask.insert(Area::M, u32::MAX);
     let plan = case.shape.cycles();
-    for c in 1..=plan.len() {
-        let (dt_ms, idle) = plan[c - 1];
+    // with a cleared fault: two more cycles after the faulting one
+    let ncycles = if case.clear != 0 { case.fault_cycle + 2 } else { plan.len() };
+    for c in 1..=ncycles {
+        let (dt_ms, idle) = plan[(c - 1).min(plan.len() - 1)];
         let is_fault_cycle = faulted_at.is_none() && case.fault_cycle == c;
         // ---- stimulus -------------------------------------------------------------------
         let mut idle_set: Vec<Option<u64>> = vec![None; case.binds.len()];
         if faulted_at.is_none() {
             set_var(rt, &home, "stamp", Value::Int(c as i16))?;
-            set_var(rt, &home, "trip", Value::Bool(is_fault_cycle))?;
+            set_var(rt, &home, "trip", Value::Bool(is_fault_cycle && case.fault_kind == 0))?;
             for (k, b) in case.binds.iter().enumerate() {
                 if b.addr.area.writes() {
                     for (ph, n) in ["se", "sm", "sl"].iter().enumerate() {
                         set_var(rt, &home, &format!("{n}{k}"), mk_value(b.ty, case.val(k, c, ph)))?;
                     }
                 }
+            }
+            if is_fault_cycle {
+                if let Some(k) = case.bad_binding() {
+                    let bad = unencodable(case.binds[k].ty).ok_or_else(|| format!("no unencodable value for {}", case.to_json()))?;
+                    set_var(rt, &home, &format!("sl{k}"), bad)?;
+                }
+                let mut g = sh.lock().unwrap();
+                g.fail_read = case.fault_kind == 3;
+                g.fail_write = case.fault_kind == 4;
             }
             if let Some(pa) = &case.partial {
                 if case.binds[0].addr.area.writes() {
@@ -1399,6 +1477,7 @@ fn run_case(case: &Case) -> Result<CaseRun, String> {
             .map(|e| match e {
                 Ev::Read { drv, .. } => format!("R{drv}"),
                 Ev::Write { drv, .. } => format!("W{drv}"),
+                Ev::Failed { drv } => format!("E{drv}"),
             })
             .collect();
         // model of the input image: first read of each driver = the latch; all reads = "later"
@@ -1428,14 +1507,15 @@ fn run_case(case: &Case) -> Result<CaseRun, String> {
         // ---- cycles at / after the fault --------------------------------------------------
         if is_fault_cycle || faulted_at.is_some() {
             if is_fault_cycle {
-                match &res {
-                    Err(RuntimeError::DivisionByZero) => {}
-                    Err(other) => {
+                match (&res, case.fault_kind) {
+                    (Err(RuntimeError::DivisionByZero), 0) => {}
+                    (Err(_), 1..=4) => {}
+                    (Err(other), _) => {
                         // some other fault came first (exchange fault): nothing to check here
                         stats.exchange_fault = Some(format!("{}:{}", bind_tags(case), err_name(other)));
                         return Ok(CaseRun { viols, stats });
                     }
-                    Ok(()) => return Err(format!("trip did not fault in cycle {c}: {}", case.to_json())),
+                    (Ok(()), _) => return Err(format!("the injected fault (kind {}) did not fault cycle {c}: {}", case.fault_kind, case.to_json())),
                 }
                 faulted_at = Some(c);
                 fault_var_before = var_before.clone();
@@ -1443,7 +1523,16 @@ fn run_case(case: &Case) -> Result<CaseRun, String> {
                     .binds
                     .iter()
                     .enumerate()
-                    .map(|(k, _)| (0..match case.fault_pos { 0 => 0, 1 => 2, _ => 3 }).map(|ph| case.val(k, c, ph)).collect())
+                    .map(|(k, _)| {
+                        let phases = match (case.fault_kind, case.fault_pos) {
+                            (3, _) => 0,                 // the program never ran
+                            (1, _) | (2, _) => 3,        // the program ran to its end
+                            (_, 0) => 0,
+                            (_, 1) => 2,
+                            _ => 3,
+                        };
+                        (0..phases).map(|ph| case.val(k, c, ph)).collect()
+                    })
                     .collect();
                 // the interesting branch: the early/mid writes really happened before the fault
                 let visible = case.binds.iter().enumerate().any(|(k, b)| {
@@ -1456,9 +1545,14 @@ fn run_case(case: &Case) -> Result<CaseRun, String> {
                 }
                 let mark = |n: &str| get_var(rt, &home, n).and_then(|v| value_bits(&TYPES[6], &v)) == Some(c as u64);
                 let (ma, mb, mc) = (mark("ma"), mark("mb"), mark("mc"));
-                let as_designed = match case.fault_pos {
-                    0 => !ma && !mb && !mc,
-                    1 => ma && mb && !mc,
+                let as_designed = match (case.fault_kind, case.fault_pos) {
+                    (3, _) => !ma && !mb && !mc,
+                    // an unencodable value faults when published, or (should assignments ever
+                    // narrow) already at the late assignment in segment C: both are fine here
+                    (1, _) | (2, _) => ma && mb,
+                    (4, _) => ma && mb && mc,
+                    (_, 0) => !ma && !mb && !mc,
+                    (_, 1) => ma && mb && !mc,
                     _ => ma && mb && mc,
                 };
                 if !as_designed {
@@ -1467,7 +1561,7 @@ fn run_case(case: &Case) -> Result<CaseRun, String> {
                 // inputs are still asked for exactly once before the program
                 let reads: String = events.iter().filter_map(|e| if let Ev::Read { drv, .. } = e { Some(format!("R{drv}")) } else { None }).collect();
                 let exp_reads: String = (0..case.drivers).map(|d| format!("R{d}")).collect();
-                if reads != exp_reads {
+                if reads != exp_reads && case.fault_kind != 3 {
                     push(&mut viols, calls_tail(&events, case.drivers, false), format!("driver calls in the faulting cycle were [{pattern}], expected reads [{exp_reads}] once each before the program"), c);
                 }
             }
@@ -1502,6 +1596,11 @@ fn run_case(case: &Case) -> Result<CaseRun, String> {
             if io_after.len() == IMG {
                 consumers.push(("after the faulted cycle Runtime::io().outputs() holds an image".to_string(), &io_after[..], &out_before[..], true));
             }
+            if case.fault_kind == 4 && is_fault_cycle {
+                // the program completed and the publication itself was under way when the driver
+                // failed: what reached the drivers was published legitimately
+                consumers.clear();
+            }
             let mut reported = false;
             for (label, image, lp, is_io) in consumers {
                 if is_io && reported {
@@ -1528,6 +1627,10 @@ fn run_case(case: &Case) -> Result<CaseRun, String> {
                         img_put(&mut t, &b.addr, *v);
                         if bits.iter().all(|&p| bit_at(&t, p) == bit_at(image, p)) {
                             let mut tail = format!("fault-publish/{when}");
+                            if matches!(case.fault_kind, 1 | 2) {
+                                // the cycle faulted while the outputs were being encoded, not in program code
+                                tail.push_str(":output-phase");
+                            }
                             if case.policy != 0 {
                                 tail.push_str(&format!(
                                     ":{}:%Q:{}",
@@ -1553,6 +1656,46 @@ fn run_case(case: &Case) -> Result<CaseRun, String> {
                         }
                     }
                 }
+            }
+            if case.fault_kind == 4 && is_fault_cycle {
+                for (d, img) in &writes {
+                    last_pub[*d] = (*img).clone();
+                }
+            }
+            if is_fault_cycle && case.clear != 0 {
+                // ---- the fault is cleared: from here on the full cycle oracle applies again ----
+                let kind = if matches!(case.fault_kind, 1 | 2) && !get_var(rt, &home, "mc").and_then(|v| value_bits(&TYPES[6], &v)).map(|v| v == c as u64).unwrap_or(false) {
+                    "program"
+                } else {
+                    KIND_NAMES[case.fault_kind as usize % 5]
+                };
+                let r = match case.clear {
+                    1 => {
+                        rt.clear_fault();
+                        Ok(Ok(()))
+                    }
+                    2 => catch(|| rt.restart(RestartMode::Warm)),
+                    _ => catch(|| rt.restart(RestartMode::Cold)),
+                };
+                match r {
+                    Ok(Ok(())) => {}
+                    Ok(Err(e)) => return Err(format!("restart failed: {e:?}: {}", case.to_json())),
+                    Err(m) => {
+                        push(&mut viols, format!("panic/restart/{}", norm_msg(&m)), format!("restart panicked: {m}"), c);
+                        return Ok(CaseRun { viols, stats });
+                    }
+                }
+                if rt.faulted() {
+                    return Err(format!("fault not cleared by {}: {}", CLEAR_NAMES[case.clear as usize % 4], case.to_json()));
+                }
+                home = find_home(rt, case.shape)?;
+                faulted_at = None;
+                prev_mem_end = rt.io().memory().to_vec();
+                *after_clear.borrow_mut() = Some(format!("{kind}:{}", CLEAR_NAMES[case.clear as usize % 4]));
+                let mut g = sh.lock().unwrap();
+                g.fail_read = false;
+                g.fail_write = false;
+                g.events.clear();
             }
             continue;
         }
@@ -1756,6 +1899,9 @@ fn run_case(case: &Case) -> Result<CaseRun, String> {
             }
         }
         stats.normal_cycles_checked += 1;
+        if after_clear.borrow().is_some() {
+            stats.continuation_cycles += 1;
+        }
     }
     Ok(CaseRun { viols, stats })
 }
@@ -1924,6 +2070,7 @@ struct Plan {
     /// value schedules x external image writes (see `Case::sched`, `Case::ext`)
     shapes_sched_single: Vec<Shape>,
     shapes_fault: Vec<Shape>,
+    shapes_clear: Vec<Shape>,
     shapes_fault_pair: Vec<Shape>,
     pair_scheds: Vec<u8>,
 }
@@ -1970,7 +2117,7 @@ fn enumerate(plan: &Plan) -> Vec<Case> {
             if f != 0 && b.addr.area != Area::Q {
                 continue;
             }
-            cases.push(Case { family: "single", shape: sh, drivers: d, fault_cycle: f, binds: vec![b.clone()], partial: None, sched: 0, ext: false, policy: 0, safe: Vec::new(), fault_pos: 1 });
+            cases.push(Case { family: "single", shape: sh, drivers: d, fault_cycle: f, binds: vec![b.clone()], partial: None, sched: 0, ext: false, policy: 0, safe: Vec::new(), fault_pos: 1, fault_kind: 0, clear: 0 });
         }
     }
     // partial access on a bound bit-string variable
@@ -1997,6 +2144,8 @@ fn enumerate(plan: &Plan) -> Vec<Case> {
                                 policy: 0,
                                 safe: Vec::new(),
                                 fault_pos: 1,
+                                fault_kind: 0,
+                                clear: 0,
                             });
                         }
                     }
@@ -2012,7 +2161,7 @@ fn enumerate(plan: &Plan) -> Vec<Case> {
                     continue; // the plain single cases above
                 }
                 for b in singles.iter().filter(|b| b.addr.area.writes()) {
-                    cases.push(Case { family: "single", shape: sh, drivers: 1, fault_cycle: 0, binds: vec![b.clone()], partial: None, sched, ext, policy: 0, safe: Vec::new(), fault_pos: 1 });
+                    cases.push(Case { family: "single", shape: sh, drivers: 1, fault_cycle: 0, binds: vec![b.clone()], partial: None, sched, ext, policy: 0, safe: Vec::new(), fault_pos: 1, fault_kind: 0, clear: 0 });
                 }
             }
         }
@@ -2050,6 +2199,8 @@ fn enumerate(plan: &Plan) -> Vec<Case> {
                                 policy: 0,
                                 safe: Vec::new(),
                                 fault_pos: 1,
+                                fault_kind: 0,
+                                clear: 0,
                             });
                         }
                     }
@@ -2115,12 +2266,68 @@ fn enumerate(plan: &Plan) -> Vec<Case> {
             }
         }
     }
+    // cleared faults: fault kind x way of clearing it, then two more fully checked cycles
+    for (sh, d, _) in variants(&plan.shapes_clear, &[], true, plan.pair_all_types) {
+        for clear in 1..=3u8 {
+            for kind in [0u8, 1, 3, 4] {
+                for b in &singles {
+                    if kind == 1 && !(b.addr.area.writes() && unencodable(b.ty).is_some()) {
+                        continue;
+                    }
+                    let mut c = Case::plain("single", sh, d, 2, vec![b.clone()]);
+                    c.fault_kind = kind;
+                    c.clear = clear;
+                    cases.push(c);
+                }
+            }
+            // an input, an output and a marker binding together; the output cannot be encoded
+            for addr in addresses(Area::I) {
+                for ty in types_of(addr.size) {
+                    if unencodable(ty).is_none() {
+                        continue;
+                    }
+                    let binds = AREAS.iter().map(|&a| Bind { addr: Addr { area: a, ..addr }, ty }).collect();
+                    let mut c = Case::plain("tri", sh, d, 2, binds);
+                    c.fault_kind = 1;
+                    c.clear = clear;
+                    cases.push(c);
+                }
+            }
+        }
+    }
+    // the second of two bound outputs cannot be encoded: the first one has already been encoded
+    for policy in [0u8, 1] {
+        let addrs = addresses(Area::Q);
+        for (i, a) in addrs.iter().enumerate() {
+            for (j, b) in addrs.iter().enumerate() {
+                if !spans_touch(a, b) {
+                    continue;
+                }
+                let ta = types_of(a.size);
+                let tb: Vec<&'static Ty> = types_of(b.size).into_iter().filter(|t| unencodable(t).is_some()).collect();
+                if tb.is_empty() {
+                    continue;
+                }
+                let combos: Vec<(&'static Ty, &'static Ty)> = if plan.pair_all_types {
+                    ta.iter().flat_map(|x| tb.iter().map(move |y| (*x, *y))).collect()
+                } else {
+                    vec![(ta[(i + j) % ta.len()], tb[(i + 2 * j + 1) % tb.len()])]
+                };
+                for (x, y) in combos {
+                    let mut c = Case::plain("pair", Shape::Local, 1, 2, vec![Bind { addr: *a, ty: x }, Bind { addr: *b, ty: y }]);
+                    c.fault_kind = 2;
+                    c.policy = policy;
+                    cases.push(c);
+                }
+            }
+        }
+    }
     // the same address in all three areas
     for (sh, d, f) in variants(&plan.shapes_single, &plan.faults, true, false) {
         for addr in addresses(Area::I) {
             for ty in types_of(addr.size) {
                 let binds = AREAS.iter().map(|&a| Bind { addr: Addr { area: a, ..addr }, ty }).collect();
-                cases.push(Case { family: "tri", shape: sh, drivers: d, fault_cycle: f, binds, partial: None, sched: 0, ext: false, policy: 0, safe: Vec::new(), fault_pos: 1 });
+                cases.push(Case { family: "tri", shape: sh, drivers: d, fault_cycle: f, binds, partial: None, sched: 0, ext: false, policy: 0, safe: Vec::new(), fault_pos: 1, fault_kind: 0, clear: 0 });
             }
         }
     }
@@ -2144,14 +2351,14 @@ fn enumerate(plan: &Plan) -> Vec<Case> {
                     if plan.pair_all_types {
                         for x in &ta {
                             for y in &tb {
-                                cases.push(Case { family: "pair", shape: sh, drivers: d, fault_cycle: f, binds: vec![Bind { addr: *a, ty: x }, Bind { addr: *b, ty: y }], partial: None, sched: 0, ext: false, policy: 0, safe: Vec::new(), fault_pos: 1 });
+                                cases.push(Case { family: "pair", shape: sh, drivers: d, fault_cycle: f, binds: vec![Bind { addr: *a, ty: x }, Bind { addr: *b, ty: y }], partial: None, sched: 0, ext: false, policy: 0, safe: Vec::new(), fault_pos: 1, fault_kind: 0, clear: 0 });
                             }
                         }
                     } else {
                         // one type per member, rotating through the types of its size
                         let x = ta[(i + j) % ta.len()];
                         let y = tb[(i + 2 * j + 1) % tb.len()];
-                        cases.push(Case { family: "pair", shape: sh, drivers: d, fault_cycle: f, binds: vec![Bind { addr: *a, ty: x }, Bind { addr: *b, ty: y }], partial: None, sched: 0, ext: false, policy: 0, safe: Vec::new(), fault_pos: 1 });
+                        cases.push(Case { family: "pair", shape: sh, drivers: d, fault_cycle: f, binds: vec![Bind { addr: *a, ty: x }, Bind { addr: *b, ty: y }], partial: None, sched: 0, ext: false, policy: 0, safe: Vec::new(), fault_pos: 1, fault_kind: 0, clear: 0 });
                     }
                 }
             }
@@ -2181,6 +2388,7 @@ pub fn run(ctx: &Ctx) -> EngineResult {
         shapes_pair: ctx.tier.pick(all.clone(), with_idle.clone()),
         shapes_sched_single: ctx.tier.pick(vec![Shape::Local, Shape::Tasks], all.clone()),
         shapes_fault: all.clone(),
+        shapes_clear: ctx.tier.pick(vec![Shape::Local, Shape::Tasks], all.clone()),
         shapes_fault_pair: vec![Shape::Local, Shape::Tasks],
         // quick: every keep/change combination occurs once in cycle 2 and once in cycle 3
         pair_scheds: ctx.tier.pick(vec![0b0000, 0b1100, 0b1001, 0b0110, 0b0011], (0..16).collect()),
@@ -2243,6 +2451,7 @@ pub fn run(ctx: &Ctx) -> EngineResult {
     let mut subsumed = 0u64;
     let mut sched_cases = 0u64;
     let mut policy_cases = 0u64;
+    let mut continued: BTreeMap<String, u64> = BTreeMap::new();
     for (case, r) in cases.iter().zip(res) {
         let Some(r) = r else {
             exhaustive = false;
@@ -2286,6 +2495,10 @@ pub fn run(ctx: &Ctx) -> EngineResult {
         tot.idle_outputs_changed += st.idle_outputs_changed;
         tot.sched_conflicts += st.sched_conflicts;
         tot.safe_deliveries += st.safe_deliveries;
+        tot.continuation_cycles += st.continuation_cycles;
+        if case.clear != 0 && st.continuation_cycles > 0 {
+            *continued.entry(format!("{}:{}", KIND_NAMES[case.fault_kind as usize % 5], CLEAR_NAMES[case.clear as usize % 4])).or_insert(0) += 1;
+        }
         if case.policy != 0 || !case.safe.is_empty() || case.fault_pos != 1 {
             policy_cases += 1;
         }
@@ -2300,6 +2513,23 @@ pub fn run(ctx: &Ctx) -> EngineResult {
         // that group in a one-binding case — otherwise one broken size would show up once per
         // partner size and relation. Enumeration order guarantees singles come first.
         for v in run.viols {
+            if let Some(rest) = v.signature.strip_prefix("C07/after-fault/") {
+                // the same clause already fails for this size without any fault: nothing new
+                let g = match rest.rsplit(':').next() {
+                    Some("publish") | Some("locality") => Some('w'),
+                    Some("latch") => Some('r'),
+                    _ => None,
+                };
+                if let Some(g) = g {
+                    let relevant = |b: &&Bind| if g == 'w' { b.addr.area.writes() } else { b.addr.area.reads() };
+                    if case.binds.iter().filter(relevant).any(|b| broken.contains(&(g, b.addr.size))) {
+                        subsumed += 1;
+                        continue;
+                    }
+                }
+                rep.violation(v);
+                continue;
+            }
             let group = if v.signature.ends_with(":order-flip") {
                 None // needs two bindings by nature
             } else if v.signature.starts_with("C07/publish/") || v.signature.starts_with("C07/locality/") {
@@ -2353,6 +2583,15 @@ pub fn run(ctx: &Ctx) -> EngineResult {
     if executed == cases.len() && (tot.idle_cycles_checked == 0 || tot.idle_outputs_changed == 0) {
         return machinery(format!("no idle cycle (no task due) with an externally changed output variable was checked: {tot:?}"));
     }
+    if executed == cases.len() {
+        for kind in ["program", "output-phase", "driver-read", "driver-write"] {
+            for clear in &CLEAR_NAMES[1..] {
+                if !continued.contains_key(&format!("{kind}:{clear}")) {
+                    return machinery(format!("no case continued after a {kind} fault cleared by {clear}: {continued:?}"));
+                }
+            }
+        }
+    }
     if executed == cases.len() && (policy_cases == 0 || tot.safe_deliveries == 0) {
         return machinery("no faulted cycle under SafeHalt delivered an image to a driver: the fault-policy family is vacuous");
     }
@@ -2366,7 +2605,7 @@ pub fn run(ctx: &Ctx) -> EngineResult {
     rep.set("distinct_nontrivial", distinct.len() as u64);
     rep.set(
         "rule",
-        "cases = api (every address x 2 fill patterns) + binding sets: every single binding (area x {X bit0-7,B,W,D,L} x byte offset {0,1,2,3,7} x every declared type of that width) and every pair in one area whose byte spans overlap or touch (quick: unordered, one rotating type per member; thorough: ordered, all type pairs), the same address in %I+%Q+%M, and IEC partial accesses on bound bit strings; each multiplied by binding site {program VAR, VAR_GLOBAL with two tasks + background program, AT %* + VAR_CONFIG, FB VAR, VAR_GLOBAL with every program task-bound at INTERVAL 100 ms and cycles at t=0,100,125,225 ms (two idle cycles, output variables changed through the storage API)}, 1 or 2 logging drivers and {no fault, division by zero in cycle f}; for %Q/%M singles and bit-sharing pairs additionally value schedule (per cycle 2,3 each variable keeps or changes its final value) x {no, yes} external IoInterface::write of a different pattern into the bound spans before cycles 2 and 3; for %Q singles in faulting runs additionally fault policy {Halt, SafeHalt, Restart} x safe-state entries {none, the bound address, an entry covering it partly} x fault placed after {none, some, all} output assignments, and %Q pairs under SafeHalt with a safe entry for the first binding only. distinct_nontrivial = distinct cases (hash of the case description) that compiled, completed at least one fully checked cycle and in which a latched value or a written image differed from the 0xA5 pre-fill.",
+        "cases = api (every address x 2 fill patterns) + binding sets: every single binding (area x {X bit0-7,B,W,D,L} x byte offset {0,1,2,3,7} x every declared type of that width) and every pair in one area whose byte spans overlap or touch (quick: unordered, one rotating type per member; thorough: ordered, all type pairs), the same address in %I+%Q+%M, and IEC partial accesses on bound bit strings; each multiplied by binding site {program VAR, VAR_GLOBAL with two tasks + background program, AT %* + VAR_CONFIG, FB VAR, VAR_GLOBAL with every program task-bound at INTERVAL 100 ms and cycles at t=0,100,125,225 ms (two idle cycles, output variables changed through the storage API)}, 1 or 2 logging drivers and {no fault, division by zero in cycle f}; for %Q/%M singles and bit-sharing pairs additionally value schedule (per cycle 2,3 each variable keeps or changes its final value) x {no, yes} external IoInterface::write of a different pattern into the bound spans before cycles 2 and 3; for %Q singles in faulting runs additionally fault policy {Halt, SafeHalt, Restart} x safe-state entries {none, the bound address, an entry covering it partly} x fault placed after {none, some, all} output assignments, and %Q pairs under SafeHalt with a safe entry for the first binding only; and for every single (and I+Q+M triple) fault kind {division by zero in the program, bound variable holding a value that cannot be encoded when the outputs are published, driver read error, driver write error} in cycle 2 x the fault cleared by {clear_fault, restart(Warm), restart(Cold)} followed by two more cycles under the full oracle. distinct_nontrivial = distinct cases (hash of the case description) that compiled, completed at least one fully checked cycle and in which a latched value or a written image differed from the 0xA5 pre-fill.",
     );
     rep.set("binding_cases_enumerated", cases.len() as u64);
     rep.set("binding_cases_executed", executed as u64);
@@ -2388,6 +2627,8 @@ pub fn run(ctx: &Ctx) -> EngineResult {
     rep.set("value_schedule_cycles_with_conflicting_overlap", tot.sched_conflicts);
     rep.set("fault_policy_safe_state_cases", policy_cases);
     rep.set("safe_halt_fault_cycles_with_driver_delivery", tot.safe_deliveries);
+    rep.set("cases_continued_after_cleared_fault", json!(continued));
+    rep.set("cycles_fully_checked_after_cleared_fault", tot.continuation_cycles);
     rep.set("types_in_alphabet", TYPES.len() as u64);
     rep.set("exhaustive", exhaustive);
     rep.assume("value type tags are not inspected (C03); values are compared as bit patterns of the declared width");
